@@ -220,7 +220,7 @@ class Ownership:
         import time as _t
         t0 = _t.time()
         try:
-            leaves = self.I.explore(body, cfg, max_paths=3000)
+            leaves = self.I.explore(body, cfg, max_paths=15000)
         except Unmodelled as e:
             s.error = str(e)
             return s
